@@ -33,7 +33,7 @@ class T:
         return T(self.kind, self.name, self.args, '', self.const, self.raw)
 
     def is_scalar(self):
-        return self.kind in ('bool', 'int', 'real', 'ptr', 'enum')
+        return self.kind in ('bool', 'int', 'real', 'ptr', 'enum', 'string')
 
 
 def split_targs(s):
